@@ -13,6 +13,7 @@ Verdict zone (exclusions by construction, see known_findings.json):
 """
 import collections
 import copy
+import os
 
 from . import workloads
 
@@ -31,6 +32,9 @@ def generate(r):
     senders_of = collections.defaultdict(list)
     pattern = r.choice(["random", "random", "random", "backlog", "pingpong", "fan", "balanced", "balanced", "early_wakes", "stale_sender",
                         "parked_close", "fanout_close", "leftovers"])
+    if os.environ.get("VERIF_NET_PATTERN"):
+        # experiments only (measuring how often one pattern reaches a seeded change); never set by a registered command
+        pattern = os.environ["VERIF_NET_PATTERN"]
     preset_spawned = {}
     preset_main = None
 
